@@ -18,7 +18,7 @@ import json
 import os
 
 from sa.pyfacts import Unknown, attr_chain, call_name, get_kw, norm
-from sa.q import Fn, inside, raise_class
+from sa.q import Fn, inside, natom, raise_class
 from sa.regions import Evaluator, representatives
 from sa.report import AnalysisError
 
@@ -498,6 +498,17 @@ def r4(repo, chk):
         extra = [a for a in lg if "content_length" not in a[0]]
         ok = ok and not extra
     chk.ob("R4", "_check_content_length raises MessageError when the counted body differs from the declared length", ok, "comparison no longer guards the raise (or has extra conditions)", chkfn.loc(chkfn.node))
+    for r in rs:
+        lg = set(chkfn.lexical_guards(r, expand=False))
+        chk.ob("R4", "_check_content_length: the only other condition is that a length was declared", lg == {("stream.expected_content_length is not None", True), ("stream.content_length != stream.expected_content_length", True)}, f"guards {sorted(lg)}", chkfn.loc(r))
+    # header-block position on the stream: first block = message headers, second = trailers, a third is refused
+    hp = Fn(repo, f"{H3}:H3Connection._handle_request_or_push_frame")
+    sets = {norm(v): hp.lexical_guards(st, expand=False) for st, t, v in hp.assigns(chain="stream.headers_recv_state")}
+    ini, aft = natom("stream.headers_recv_state == HeadersState.INITIAL"), natom("stream.headers_recv_state == HeadersState.INITIAL", False)
+    ok = set(sets) == {"HeadersState.AFTER_HEADERS", "HeadersState.AFTER_TRAILERS"} and ini in sets["HeadersState.AFTER_HEADERS"] and aft in sets["HeadersState.AFTER_TRAILERS"]
+    chk.ob("R3", "_handle_request_or_push_frame: a validated header block moves the stream INITIAL -> AFTER_HEADERS, any later one -> AFTER_TRAILERS", ok, f"{ {k: v for k, v in sets.items()} }: the validator applied to the next block (message headers vs trailers) is chosen by this state", hp.loc(hp.node))
+    ref3 = [r for r in hp.raises("FrameUnexpected") if natom("stream.headers_recv_state == HeadersState.AFTER_TRAILERS") in hp.lexical_guards(r, expand=False) and natom("frame_type == FrameType.HEADERS") in hp.lexical_guards(r, expand=False)]
+    chk.ob("R3", "a HEADERS frame after the trailers is refused", len(ref3) == 1, "", hp.loc(hp.node))
 
     # writers of content_length / expected_content_length
     writers = []
